@@ -1547,6 +1547,25 @@ def r5_side_tables(run):
                           '_compile_and_find forwards its own `%s` argument' % gname, m,
                           '%s: argument %d is %s' % (short(c.func, 30), k, short(cargs[k], 40)), where=m.loc(st.anchor))
 
+    # ownership: nobody else replaces a table behind the compiled finder's back.  A same-class helper that stores to a table is read
+    # as part of _compile when _compile is its ONLY user (every mention of it is a call made from _compile): its stores then happen
+    # where the call stands, and the call is judged like a direct store below
+    table_helpers: Dict[str, Set[str]] = {}
+    for m in router.methods.values():
+        if m is comp or m.name == '__init__':
+            continue
+        stored = {_self_attr(e) for e in walk_self(m.node) if isinstance(e, ast.Attribute) and _self_attr(e) in table_of_gen_name.values()
+                  and isinstance(e.ctx, (ast.Store, ast.Del))}
+        if not stored:
+            continue
+        mentions = [(g, e) for g in p.module(H.MODULE).all_funcs for e in walk_self(g.node)
+                    if isinstance(e, ast.Attribute) and e.attr == m.name]
+        calls = {id(c.func) for g in p.module(H.MODULE).all_funcs if g is comp for c in walk_self(g.node)
+                 if isinstance(c, ast.Call) and p.callee(g, c) is m}
+        if not mentions or any(id(e) not in calls for (_g, e) in mentions):
+            raise UnknownIdiom('%s stores to side table self.%s outside _compile' % (m.qual, sorted(stored)[0]))
+        table_helpers[m.qual] = stored
+
     # --- _compile: the objects filled by the generator are the ones the finder will get
     gnode = H.node_of_ast(ccfg, gcall)
     after = flow.reachable(ccfg, [y for (y, l) in ccfg.succ[gnode] if l != 'exc'], edge_filter=flow.no_exc)
@@ -1562,19 +1581,15 @@ def r5_side_tables(run):
                     culprit = n
                 if isinstance(e, ast.Call) and isinstance(e.func, ast.Attribute) and e.func.attr in LIST_MUTATORS and _self_attr(e.func.value) == ta:
                     culprit = n
+                if isinstance(e, ast.Call) and table_helpers:
+                    t_ = p.callee(comp, e)
+                    if isinstance(t_, Func) and ta in table_helpers.get(t_.qual, ()):
+                        culprit = n      # the helper's store, standing where it is called
         run.check(passed_ok and culprit is None,
                   '_compile: self.%s as filled by the generator is what later lookups pass as `%s` (handed over as the attribute itself, '
                   'not replaced or emptied afterwards)' % (ta, gname), comp,
                   culprit.ast if culprit is not None else (gcall if passed_ok else 'self.%s is not what the generator fills' % ta),
                   where=comp.loc(culprit.ast) if culprit is not None else comp.loc(gcall), runtime_witness=W + ' / IndexError in the finder')
-    # ownership: nobody else replaces a table behind the compiled finder's back
-    for m in router.methods.values():
-        if m is comp or m.name == '__init__':
-            continue
-        for e in walk_self(m.node):
-            if isinstance(e, ast.Attribute) and _self_attr(e) in table_of_gen_name.values() and isinstance(e.ctx, (ast.Store, ast.Del)):
-                raise UnknownIdiom('%s stores to side table self.%s outside _compile' % (m.qual, e.attr))
-
 
 # ---------------------------------------------------------------------------
 # R3 delayed parameter assignment
@@ -2728,24 +2743,43 @@ def r6_generated_names(run):
 # ---------------------------------------------------------------------------
 
 def _src_format_calls(p, cx: H.CxClass) -> List[Tuple[ast.Call, str]]:
-    """(format call, folded template) of every str.format in the construct's own src()."""
+    """(format call, folded template) of every str.format in the construct's own src(); an f-string is read as the
+    equivalent .format call (same literal text, same fields in the same order, same conversions), and an argument that
+    is a local of src() bound once is replaced by the expression it is bound to."""
     src = cx.src_func
     out = []
+    once: Dict[str, ast.AST] = {}
+    for a in ast.walk(src.node):
+        if isinstance(a, ast.Assign) and len(a.targets) == 1 and isinstance(a.targets[0], ast.Name):
+            once[a.targets[0].id] = a.value if a.targets[0].id not in once else None
+        elif isinstance(a, ast.Name) and isinstance(a.ctx, ast.Store) and a.id in once and not any(
+                isinstance(b, ast.Assign) and len(b.targets) == 1 and b.targets[0] is a for b in ast.walk(src.node)):
+            once[a.id] = None
+    nested = {id(v) for n in ast.walk(src.node) if isinstance(n, ast.FormattedValue) and n.format_spec is not None
+              for v in ast.walk(n.format_spec)}
+
+    def through_local(x, depth=0):
+        while isinstance(x, ast.Name) and once.get(x.id) is not None and depth < 4:
+            x, depth = once[x.id], depth + 1
+        return x
+
     for n in ast.walk(src.node):
-        if isinstance(n, (ast.JoinedStr,)) or (isinstance(n, ast.BinOp) and isinstance(n.op, ast.Mod)
-                                              and isinstance(n.left, ast.Constant) and isinstance(n.left.value, str)):
-            raise UnknownIdiom('%s: source text built by %s (only str.format templates are read)' % (src.qual, short(n, 60)))
+        if isinstance(n, ast.BinOp) and isinstance(n.op, ast.Mod) and isinstance(n.left, ast.Constant) and isinstance(n.left.value, str):
+            raise UnknownIdiom('%s: source text built by %s (only str.format templates and f-strings are read)' % (src.qual, short(n, 60)))
+        if isinstance(n, ast.JoinedStr):
+            if id(n) in nested:
+                continue   # the format-spec part of a field: fstring_as_format refuses the field itself
+            n = H.fstring_as_format(n, src.qual)
         if isinstance(n, ast.Call) and isinstance(n.func, ast.Attribute) and n.func.attr == 'format':
-            tv = n.func.value
-            if isinstance(tv, ast.Name):
-                defs = [a.value for a in ast.walk(src.node) if isinstance(a, ast.Assign)
-                        and any(isinstance(t, ast.Name) and t.id == tv.id for t in a.targets)]
-                tv = defs[0] if len(defs) == 1 else tv
+            tv = through_local(n.func.value)
             tmpl = p.fold(src.module, tv, cx.cls, src)
             if not isinstance(tmpl, str):
                 raise UnknownIdiom('%s: template of %s is not a constant' % (src.qual, short(n, 60)))
             if n.keywords or any(isinstance(x, ast.Starred) for x in n.args):
                 raise UnknownIdiom('%s: %s' % (src.qual, short(n, 60)))
+            if any(isinstance(x, ast.Name) and once.get(x.id) is not None for x in n.args):
+                m = ast.Call(func=n.func, args=[through_local(x) for x in n.args], keywords=[])
+                n = ast.copy_location(m, n)
             out.append((n, tmpl))
     return out
 
@@ -4102,7 +4136,9 @@ def check(run):
     # R6 floor: 6 reads + 4 references today; the parts have their own minima (3 / 2) so that dropping one construct class
     # (with everything still referenced being emitted) is not by itself an analysis error
     run.rule('R7', r7_conflict_table, 'conflicts_with on the 3x3 node kinds', floor=6)
-    run.rule('R8', r8_pruning, 'fast_return pruning is only ever conservative', floor=5)
+    # floor: the two evaluations + at least one guarded `return None` emission (today three; textually identical emission bodies
+    # may be merged -- k2-c01-1 -- and r8 itself fails closed when it finds no emission at all)
+    run.rule('R8', r8_pruning, 'fast_return pruning is only ever conservative', floor=3)
     from . import c19 as _c19
 
     run.rule('R12', _c19.r6_tables_rebound, 'a recompile publishes fresh side tables; lookups in flight keep a consistent finder/table pair (shared with C19 R6)', floor=3)
